@@ -103,7 +103,8 @@ class OptimizationAbstract(ABC, Generic[T]):
 
         # Parallel mode
         with get_pool_executor(self._mode, self._workers) as executor:
-            executors = [executor.submit(self._init_agent) for _ in range(0, n_agents)]
+            # draw the random positions here: forked workers share one random state and would replay it
+            executors = [executor.submit(self._init_agent, self._task.empty_solution()) for _ in range(0, n_agents)]
             pop = get_pool_results(executors)
         return pop
 
